@@ -399,15 +399,16 @@ class MeshTri1(MeshSimplex, Mesh2D):
             points = np.zeros((3, 0), dtype=np.float64)
             wedges = np.zeros((6, 0), dtype=np.int32)
             diff = 0
-            for i, p in enumerate(np.sort(other.p[0])):
+            z = np.sort(other.p[0])
+            # layers that are elements of 'other': position of the lower end
+            layers = np.searchsorted(z, other.p[0, other.t].min(axis=0))
+            for i, p in enumerate(z):
                 points = np.hstack((
                     points,
                     np.vstack((self.p,
                                np.array(self.p.shape[1] * [p])))
                 ))
-                if i == len(other.p[0]) - 1:
-                    pass
-                else:
+                if i in layers:
                     wedges = np.hstack((
                         wedges,
                         np.vstack((self.t + diff,
